@@ -39,6 +39,11 @@ INT_RANGES = {
 
 # library functions without a panic path for any argument (read from their sources); result unknown
 TOTAL_CALLS = {
+    "std::option::Option::copied",
+    "std::option::Option::cloned",
+    "std::option::Option::filter",
+    "std::option::Option::or",
+    "std::option::Option::zip",
     "std::iter::Iterator::any",
     "std::iter::Iterator::all",
     "std::iter::Iterator::find",
@@ -144,6 +149,22 @@ TOTAL_CALLS = {
     "bytes::Buf::reader",
     "bytes::buf::Buf::reader",
 }
+
+
+def _normalise_total(names):
+    import re as _re
+
+    out = set(names)
+    for n in list(names):
+        m = _re.sub(r"::<impl [^>]*>", "", n)
+        out.add(m)
+        for a, b in (("std::", "core::"), ("core::", "std::"), ("std::", "alloc::")):
+            if m.startswith(a):
+                out.add(b + m[len(a):])
+    return out
+
+
+TOTAL_CALLS = _normalise_total(TOTAL_CALLS)
 
 
 class Obligation:
@@ -913,6 +934,16 @@ class FnRun:
             if v[2] in ("Err", "None"):
                 return ("tag", "std::ops::ControlFlow", "Break", {"0": TOP})
             return ("tag", "std::ops::ControlFlow", None, {"0": v[3].get("0", TOP)})
+        if cn in ("std::option::Option::ok_or", "std::option::Option::ok_or_else") and args and args[0][0] == "tag":
+            v = args[0]
+            if v[2] == "Some":
+                return ("tag", "std::result::Result", "Ok", {"0": v[3].get("0", TOP)})
+            if v[2] == "None":
+                return ("tag", "std::result::Result", "Err", {"0": TOP})
+            return ("tag", "std::result::Result", None, {"0": TOP})
+        if cn in ("std::option::Option::copied", "std::option::Option::cloned") and args and args[0][0] == "tag":
+            v = args[0]
+            return ("tag", "std::option::Option", v[2], {"0": TOP} if v[2] != "None" else {})
         if cn in ("std::result::Result::map_err",) and args and args[0][0] == "tag":
             v = args[0]
             if v[2] == "Ok":
@@ -999,6 +1030,8 @@ def _remaining(run, st, site):
         return v_int(0)
     r = ip.fresh_int(st, "rem[%s]" % site, 0, MAX_LEN)
     st.assume_le(d.sub(r[1]), 0)  # r >= len - pos
+    if len(st.pos.t) <= 1:
+        st.remdefs["rem[%s]" % site] = st.pos  # r = max(0, len - pos): used when r is later compared
     return r
 
 
@@ -1263,7 +1296,29 @@ def m_position(run, bb, st, t, args, ret, site):
     return ret(("tag", "std::option::Option", None, {"0": TOP}))
 
 
+def m_slice_first(run, bb, st, t, args, ret, site):
+    """<[T]>::first / last: Some iff the slice is non-empty"""
+    ip = run.ip
+    a = ip._deref(st, args[0]) if args and args[0][0] == "ref" else (args[0] if args else TOP)
+    if a[0] == "slice":
+        outs = []
+        s1 = st.copy()
+        s1.assume_le(a[1].neg(), -1)
+        if not s1.bottom:
+            outs += _ret_in(run, t, s1, ("tag", "std::option::Option", "Some", {"0": TOP}))
+        s2 = st.copy()
+        s2.assume_le(a[1], 0)
+        if not s2.bottom:
+            outs += _ret_in(run, t, s2, ("tag", "std::option::Option", "None", {}))
+        return outs
+    return ret(("tag", "std::option::Option", None, {"0": TOP}))
+
+
 MODELS = {
+    "core::slice::first": m_slice_first,
+    "std::slice::first": m_slice_first,
+    "core::slice::last": m_slice_first,
+    "std::slice::last": m_slice_first,
     "core::slice::iter": m_slice_iter,
     "core::slice::<impl [T]>::iter": m_slice_iter,
     "std::slice::<impl [T]>::iter": m_slice_iter,
